@@ -355,6 +355,10 @@ func c20Text(c *fw.Ctx, fam string, idx int, text string, viaCLI bool) {
 	c.NontrivialString(text)
 	in := fileArgs(path)
 	if len(errs) > 0 {
+		if ref0 := sm.Parse(text); ref0.Verdict == sm.Valid && !ref0.ZsBlank {
+			c.Violation("valid-input-rejected", cs(), fmt.Sprintf("the text is a valid file but `klog json` can only report errors for it (%s): its records are not reproduced", errSummary(errs)))
+			return
+		}
 		// invalid input: records null, errors as reported by the parser / the terminal report
 		// what the parser's errors say through the accessors the terminal report uses (whether those facts are RIGHT
 		// is C10's business; here the JSON report must carry the same ones)
@@ -527,6 +531,25 @@ func c20Text(c *fw.Ctx, fam string, idx int, text string, viaCLI bool) {
 		} else if r.Code == 0 {
 			c.Violation("json-now-not-refused", cs(), fmt.Sprintf("klog json --now at %s must refuse (an open range cannot be closed at that instant):\n%s", o.Now.Format("2006-01-02 15:04"), truncateStr(r.Stdout, 800)))
 			return
+		}
+	}
+	// the same records spread over two input files (cut after the first record): the same record objects, in the order
+	// of the files on the command line
+	if ref.Verdict == sm.Valid && len(ref.Records) == len(rs) && idx%4 == 0 {
+		if parts := c02Split(text, ref.Records); parts != nil {
+			pa := clidrv.WriteFile(dir, "c20a.klg", parts[0])
+			pb := clidrv.WriteFile(dir, "c20b.klg", parts[1])
+			both := cliutil.InputFilesArgs{File: []app.FileOrBookmarkName{app.FileOrBookmarkName(pa), app.FileOrBookmarkName(pb)}}
+			r := clidrv.Exec(home, clidrv.Opts{Now: fixedNow}, &cli.Json{InputFilesArgs: both})
+			if r.Panicked || r.Code != 0 {
+				c.Violation("json-failed", cs(), fmt.Sprintf("klog json A B failed: exit %d panic %v\n%s%s", r.Code, r.PanicVal, r.Err, r.Stack))
+				return
+			}
+			if why := c20CheckRecords(strings.TrimSuffix(r.Stdout, "\n"), want); why != "" {
+				c.Violation("json-two-files", cs(), fmt.Sprintf("klog json A B (the records spread over two files): %s\n%s", why, truncateStr(r.Stdout, 1500)))
+				return
+			}
+			c.Count("two_file_runs", 1)
 		}
 	}
 	for _, v := range vs {
